@@ -5,7 +5,8 @@ From Coq Require Import List Arith ZArith QArith Bool Lia.
 From Gst Require Import lib.QAux lib.LinAlgQ C01.Model C02.Kriging.
 From Gst Require C01.Properties C06.Model C06.Spec C06.Knn C06.Proofs_moving C06.Properties.
 From Gst Require Import C04.Algebra C04.Model C04.Proofs_covmat C04.Proofs_krige.
-From Gst Require C04.Neigh C04.Proofs_neigh.
+From Gst Require C04.Neigh C04.Proofs_neigh C04.Proofs_ball.
+From Gst Require Import C04.Proofs_migrate.
 Import ListNotations.
 Local Open Scope Q_scope.
 
@@ -109,6 +110,13 @@ Theorem C04_xvalid_unique_krige : forall k' o' n K B i y m,
 Proof. exact xvalid_unique_krige. Qed.
 Print Assumptions C04_xvalid_unique_krige.
 
+(* the row of the inverse that _estimateCalculXvalidUnique reads (KrigingSystem::_getFlagAddress, ranking by the flags that
+   compressed the system) is the position of the sample's equation among the active equations of lhs_c *)
+Theorem C04_xvalid_flag_address : forall k i a,
+  (i < neq k)%nat -> flag_address k i = Some a -> (a < nred k)%nat /\ nth a (active k) 0%nat = i.
+Proof. exact flag_address_spec. Qed.
+Print Assumptions C04_xvalid_flag_address.
+
 (* ============================================================================================ pair 4 *)
 (* Ball::queryClosest (k = 1 instance of C06_knn): the index returned attains the minimum distance over all points *)
 Theorem C04_ball_nearest : forall dist nfeat data (okp : C06.Knn.pt -> Prop),
@@ -134,25 +142,55 @@ Theorem C04_ball_nearest_unique : forall (dist : C06.Knn.pt -> C06.Knn.pt -> Q) 
 Proof. exact C04.Proofs_neigh.ball_nearest_unique. Qed.
 Print Assumptions C04_ball_nearest_unique.
 
-(* ball-tree neighbourhood search.  Full statement (NOT proved here; its general form without the premise is refuted in
-   C06_ball_moving_refuted):  if no sample is masked or undefined, no cross-validation, one sector, isotropic distance equal to
-   the tree's, and elligibles = the nmaxi nearest of the tree (no tie at the cut), then moving_ball = moving. *)
-Definition C04_ball_moving_statement : Prop :=
-  forall oracle p t samples ell,
-    (forall s, In s samples -> C06.Model.s_active s = true /\ C06.Model.discard_undefined s = false) ->
-    C06.Model.p_xvalid p = false -> C06.Model.p_nsect p = 1%nat -> C06.Model.p_checkers p = [] -> C06.Model.p_aniso p = false ->
-    (0 < C06.Model.p_nmaxi p)%Z -> (Z.to_nat (C06.Model.p_nmaxi p) <= length samples)%nat ->
-    (* ell lists exactly the nmaxi samples with the smallest squared distance, all others being strictly farther *)
-    NoDup ell -> length ell = Z.to_nat (C06.Model.p_nmaxi p) ->
-    (forall i j, In i ell -> (j < length samples)%nat -> ~ In j ell ->
-       C06.Model.dist2 p t (nth i samples C06.Model.dummy_sample) < C06.Model.dist2 p t (nth j samples C06.Model.dummy_sample)) ->
-    C06.Model.r_ranks (C06.Model.moving_ball oracle p t samples ell) = C06.Model.r_ranks (C06.Model.moving oracle p t samples).
-(* proved part: the degenerate case where the eligible list is the whole data set *)
-Theorem C04_ball_moving_partial : forall oracle p t samples,
+(* nearest-point migration: the ball path (tree on the active samples, exhaustive fallback when the nearest one is beyond dmax)
+   returns what the exhaustive path returns, for any dmax predicate, as soon as no two active samples are equidistant *)
+Theorem C04_migrate_ball : forall l,
+  (forall x y, In x (active_cands l) -> In y (active_cands l) -> mc_d2 x == mc_d2 y -> x = y) ->
+  migrate_ball l = migrate_exhaustive l.
+Proof. exact migrate_ball_eq. Qed.
+Print Assumptions C04_migrate_ball.
+
+(* ball-tree neighbourhood search: if no sample is masked or undefined, no cross-validation, one sector, no extra checker,
+   nmini <= nmaxi, and the eligible list holds exactly the nmaxi samples strictly nearest to the target for the distance of
+   _moving, then the ball path selects the neighbourhood of the exhaustive path (also when both refuse for lack of nmini
+   samples within the radius).  Without the premise the statement is refuted (C06_ball_moving_refuted). *)
+Theorem C04_ball_moving : forall oracle p t samples ell,
+  (forall s, In s samples -> C06.Model.s_active s = true /\ C06.Model.discard_undefined s = false) ->
+  C06.Model.p_xvalid p = false -> C06.Model.p_nsect p = 1%nat -> C06.Model.p_checkers p = [] ->
+  (0 < C06.Model.p_nmaxi p)%Z -> (C06.Model.p_nmini p <= C06.Model.p_nmaxi p)%Z ->
+  NoDup ell -> length ell = Z.to_nat (C06.Model.p_nmaxi p) ->
+  (forall i, In i ell -> (i < length samples)%nat) ->
+  (forall i j, In i ell -> (j < length samples)%nat -> ~ In j ell ->
+     C06.Model.dist2 p t (nth i samples C06.Model.dummy_sample) < C06.Model.dist2 p t (nth j samples C06.Model.dummy_sample)) ->
+  C06.Model.r_ranks (C06.Model.moving_ball oracle p t samples ell) = C06.Model.r_ranks (C06.Model.moving oracle p t samples).
+Proof. exact C04.Proofs_ball.ball_moving_eq. Qed.
+Print Assumptions C04_ball_moving.
+
+(* ... and the list Ball::getIndices delivers (k-nearest-neighbour query, C06_knn) satisfies that premise whenever the tree's
+   metric ranks the samples like the squared distance dd of _moving and no two samples are equidistant from the target *)
+Theorem C04_ball_eligibles : forall dist nfeat (data : list C06.Knn.pt) (okp : C06.Knn.pt -> Prop) (dd : nat -> Q) n,
+  length data = n ->
+  (forall idxs, okp (C06.Knn.centroid nfeat data idxs)) ->
+  (forall i, (i < length data)%nat -> okp (C06.Knn.getp data i)) ->
+  (forall a b, okp a -> okp b -> 0 <= dist a b) ->
+  (forall a b, okp a -> okp b -> dist a b == dist b a) ->
+  (forall a b c, okp a -> okp b -> okp c -> dist a c <= dist a b + dist b c) ->
+  forall leaf k q res, okp q -> (0 < k)%nat ->
+  (forall i j, (i < n)%nat -> (j < n)%nat -> dist q (C06.Knn.getp data i) <= dist q (C06.Knn.getp data j) -> dd i <= dd j) ->
+  (forall i j, (i < n)%nat -> (j < n)%nat -> i <> j -> ~ dd i == dd j) ->
+  C06.Knn.knn_query dist data (C06.Knn.btree_init dist nfeat data leaf) k q = Some res ->
+  let ell := map snd res in
+  NoDup ell /\ length ell = k /\ (forall i, In i ell -> (i < n)%nat) /\
+  (forall i j, In i ell -> (j < n)%nat -> ~ In j ell -> dd i < dd j).
+Proof. exact C04.Proofs_ball.knn_eligibles. Qed.
+Print Assumptions C04_ball_eligibles.
+
+(* the degenerate case where the eligible list is the whole data set needs none of these premises but "nothing masked" *)
+Theorem C04_ball_moving_all : forall oracle p t samples,
   (forall s, In s samples -> C06.Model.s_active s = true) ->
   C06.Model.moving_ball oracle p t samples (seq 0 (length samples)) = C06.Model.moving oracle p t samples.
 Proof. exact C06.Proofs_moving.moving_ball_all. Qed.
-Print Assumptions C04_ball_moving_partial.
+Print Assumptions C04_ball_moving_all.
 
 (* ============================================================================================ pair 5 *)
 (* one discretisation point: its offset is 0 and the block right-hand side is the point right-hand side *)
@@ -167,9 +205,10 @@ Proof. exact block1_rhs. Qed.
 Print Assumptions C04_block1_eq_point.
 
 (* ============================================================================================ pair 6 *)
-(* collocated option, as the accessors of KrigingSystem define it: the samples the system is built from are the
-   neighbourhood samples followed by the target carrying the collocated values = the data set with that datum appended.
-   (The implementation does not get that far: see the finding colcok:segfault-rank-minus-one.) *)
+(* collocated option: ANeigh::_updateColCok appends rank -1 and KrigingSystem (_getIdim / _getIvar / _getFext, _lhsCalcul and
+   _rhsCalcul* addressing rank -1 as the projected target point, drift values read in the output Db, system rebuilt for every
+   target) builds its system from the neighbourhood samples followed by the target carrying the collocated values = the data
+   set with that datum appended.  Pair 6 of the check compares the two on every run (former crash: corpus regression case). *)
 Theorem C04_colcok : forall data tcoord tfext rank_colcok tcol ranks,
   existsb (fun jvar => (0 <=? jvar)%Z && defined (tcol jvar)) rank_colcok = true ->
   map (sample_of_rank data (colcok_datum tcoord tfext rank_colcok tcol)) (update_colcok rank_colcok tcol false ranks) =
@@ -197,6 +236,13 @@ Theorem C04_calcul_forms : forall n p Sigma S X C sigma0 x0 z sigma00,
   sigma00 - fdot n luk sigma0 + fdot p m x0 == sigma00 - 2 * fdot n luk sigma0 + fdot n luk (fmv n Sigma luk).
 Proof. exact calcul_forms. Qed.
 Print Assumptions C04_calcul_forms.
+
+(* simple kriging with known means: primal form (means added by _needZstar) = dual form *)
+Theorem C04_calcul_sk_mean : forall n Sigma S sigma0 z m,
+  finv n Sigma S -> fsym n Sigma ->
+  fdot n (lam_sk n S sigma0) z + m == fdot n sigma0 (fmv n S z) + m.
+Proof. exact calcul_sk_mean. Qed.
+Print Assumptions C04_calcul_sk_mean.
 
 (* when the kriging model's system is that block system (and is invertible), its weights are KrigingCalcul's *)
 Theorem C04_calcul_eq_system : forall k o v n p Sigma S X C sigma0 x0 Bb,
@@ -284,6 +330,38 @@ Example C04_ball_nearest_nonvacuous :
                 (C06.Knn.btree_init C06.Knn.manhattan 2 C06.Properties.knn_ex_data 1) 1 [-2; -3 # 4] = Some res /\
               map snd res = [4%nat] /\ map snd (C06.Knn.knn_spec C06.Knn.manhattan C06.Properties.knn_ex_data 1 [-2; -3 # 4]) = [4%nat].
 Proof. eexists. vm_compute. repeat split; reflexivity. Qed.
+
+(* pair 4, neighbourhood: C06's refutation data WITHOUT cross-validation: nmaxi = 2, eligible list = the two nearest samples *)
+Definition ex_ballp : C06.Model.params :=
+  {| C06.Model.p_nmini := 1; C06.Model.p_nmaxi := 2; C06.Model.p_nsect := 1; C06.Model.p_nsmax := -1234567; C06.Model.p_ndim := 2;
+     C06.Model.p_radius := Some (5 # 2); C06.Model.p_aniso := false; C06.Model.p_rot := false; C06.Model.p_nd := 2;
+     C06.Model.p_coeffs := []; C06.Model.p_rotmat := []; C06.Model.p_xvalid := false; C06.Model.p_kfold := false;
+     C06.Model.p_hascode := false; C06.Model.p_eps := 1 # 1000000000; C06.Model.p_checkers := [] |}.
+Definition ex_ballt : C06.Model.target := {| C06.Model.t_coords := [1 # 4; 0]; C06.Model.t_code := None |}.
+Example C04_ball_moving_nonvacuous :
+  let s := C06.Properties.ball_samples in
+  map (fun x => C06.Model.dist2 ex_ballp ex_ballt x) s = [1 # 16; 9 # 16; 65 # 16; 265 # 16] /\
+  C06.Model.r_ranks (C06.Model.moving_ball C06.Properties.no_oracle ex_ballp ex_ballt s [1; 0]%nat) = [0; 1]%nat /\
+  C06.Model.r_ranks (C06.Model.moving C06.Properties.no_oracle ex_ballp ex_ballt s) = [0; 1]%nat.
+Proof. vm_compute. repeat split; reflexivity. Qed.
+
+(* pair 4, migration: the nearest active sample (rank 1) is beyond dmax, rank 3 is the nearest one within it; rank 0 is masked *)
+Example C04_migrate_nonvacuous :
+  let l := [ {| m_active := false; m_d2 := 1 # 4; m_within := true |}; {| m_active := true; m_d2 := 1; m_within := false |};
+             {| m_active := true; m_d2 := 9; m_within := true |};      {| m_active := true; m_d2 := 4; m_within := true |} ] in
+  length (active_cands l) = 3%nat /\ migrate_ball l = Some 3%nat /\ migrate_exhaustive l = Some 3%nat /\
+  option_map mc_idx (amin (active_cands l)) = Some 1%nat.
+Proof. vm_compute. repeat split; reflexivity. Qed.
+
+(* pair 3: sample 1 has an undefined external drift: equation 2 is the second active one *)
+Example C04_flag_address_nonvacuous :
+  let k := {| k_nvar := 1; k_monos := [[]]; k_nfex := 1;
+              k_samples := [ {| s_coord := [Some 0]; s_z := [Some 7]; s_verr := []; s_fext := [Some 1] |};
+                             {| s_coord := [Some 1]; s_z := [Some 3]; s_verr := []; s_fext := [None] |};
+                             {| s_coord := [Some 3]; s_z := [Some 5]; s_verr := []; s_fext := [Some 2] |} ];
+              k_means := [0]; k_tcoord := [1]; k_tfext := [Some 1]; k_flag_verr := false; k_clhs := []; k_crhs := []; k_c00 := [] |} in
+  active k = [0; 2; 3; 4]%nat /\ flag_address k 2 = Some 1%nat /\ flag_address k 1 = None.
+Proof. vm_compute. repeat split; reflexivity. Qed.
 
 (* pair 5: the kriging case of C01's example with its right-hand sides presented as one-point "blocks" *)
 Example C04_block1_nonvacuous :
